@@ -199,6 +199,10 @@ def _norm(x: T.Term):
             from math import factorial
 
             return const(factorial(int(v)))
+    if op == "np.comb" and len(a) == 2 and all(isinstance(v, int) and not isinstance(v, bool) for v in a):
+        from math import comb
+
+        return const(comb(a[0], a[1]))
     if op == "np.asarray" and len(a) == 1 and not x.kwargs:
         return norm(a[0])
     if op == "atom":
